@@ -67,10 +67,68 @@ def _reset_process_state() -> None:
             pass
 
 
+class _LogSink(logging.Handler):
+    """Formats every record (as every real handler does) and throws it away; a record that cannot be formatted is
+    swallowed the way logging.Handler.handleError does."""
+    failed = 0
+
+    def createLock(self) -> None:
+        # no handler lock: formatting a record calls back into the library (repr of requests), which is a pre-emption
+        # point of the baton scheduler - a thread parked there must not hold a lock another thread needs
+        self.lock = None
+
+    def emit(self, record: logging.LogRecord) -> None:
+        try:
+            record.getMessage()
+        except Exception:  # noqa: BLE001
+            _LogSink.failed += 1
+
+
+_NULL = logging.NullHandler()
+
+
+def logging_enabled(seed: Optional[int]) -> bool:
+    """Per-run environment knob: a quarter of the runs have the library's loggers switched on at DEBUG level (most
+    deployments log at INFO or DEBUG; the default of the test suite is silence)."""
+    return seed is not None and (seed >> 5) % 4 == 0
+
+
 def execute(prop: str, family: str, seed: Optional[int], prefix: Sequence[int] = (),
-            replay: Optional[Sequence[int]] = None, keep_history: bool = False) -> Dict[str, Any]:
-    """One simulated run.  Pure function of (code under test, prop, family, choices)."""
+            replay: Optional[Sequence[int]] = None, keep_history: bool = False,
+            env_seed: Optional[int] = None) -> Dict[str, Any]:
+    """One simulated run.  Pure function of (code under test, prop, family, choices, environment seed)."""
     mod = load_prop(prop)
+    log_on = logging_enabled(seed if env_seed is None else env_seed)
+    sink = None
+    if log_on:
+        sink = _LogSink()
+        lg = logging.getLogger('pjrpc')
+        lg.addHandler(sink)
+        lg.setLevel(logging.DEBUG)
+        lg.propagate = False
+        logging.getLogger().addHandler(_NULL)     # other libraries' loggers stay quiet (no last-resort stderr output)
+        for name in ('pjsim_flask', 'pjsim_flask_first', 'werkzeug', 'aiohttp', 'asyncio'):
+            other = logging.getLogger(name)
+            other.handlers[:] = [_NULL]
+            other.propagate = False
+        logging.disable(logging.NOTSET)
+    try:
+        res = _execute(mod, prop, family, seed, prefix, replay, keep_history)
+    finally:
+        if sink is not None:
+            lg = logging.getLogger('pjrpc')
+            lg.removeHandler(sink)
+            lg.setLevel(logging.NOTSET)
+            lg.propagate = True
+            logging.getLogger().removeHandler(_NULL)
+            logging.disable(logging.CRITICAL)
+    if log_on:
+        res['probes']['env.logging_on'] = res['probes'].get('env.logging_on', 0) + 1
+    return res
+
+
+def _execute(mod: Any, prop: str, family: str, seed: Optional[int], prefix: Sequence[int],
+             replay: Optional[Sequence[int]], keep_history: bool) -> Dict[str, Any]:
     if isinstance(prefix, dict):
         ch = Choices(seed, replay=replay, forced=prefix)
     else:
@@ -217,8 +275,8 @@ def _work(args: Tuple[str, str, int, List[Any], int]) -> Dict[str, Any]:
 
 # --- parent side -----------------------------------------------------------------------------------------------
 def _replay_matches(prop: str, family: str, choices: Sequence[int], clause: str,
-                    known: List[Dict[str, Any]]) -> Optional[Dict[str, Any]]:
-    res = execute(prop, family, None, replay=choices)
+                    known: List[Dict[str, Any]], env_seed: Optional[int] = None) -> Optional[Dict[str, Any]]:
+    res = execute(prop, family, None, replay=choices, env_seed=env_seed)
     if res['harness_error']:
         return None
     for v in res['violations']:
@@ -241,14 +299,14 @@ def _write_replay(prop: str, fail: Dict[str, Any], known: List[Dict[str, Any]], 
         original = list(fail['trace'])
 
         def still(cand: List[int]) -> bool:
-            return _replay_matches(prop, family, cand, clause, known) is not None
+            return _replay_matches(prop, family, cand, clause, known, fail['seed']) is not None
 
         small, used = minimise(original, still, max_runs=budget_runs)
-        res = _replay_matches(prop, family, small, clause, known)
+        res = _replay_matches(prop, family, small, clause, known, fail['seed'])
         minimised = True
         if res is None:  # cannot happen if deterministic; fall back to the original trace
             small, minimised = original, False
-            res = _replay_matches(prop, family, small, clause, known)
+            res = _replay_matches(prop, family, small, clause, known, fail['seed'])
         if res is None:
             # the violation does not reproduce from its own trace: harness defect
             path = os.path.join(REPLAY_DIR, f'{prop}-{fail["seed"]}-NONDETERMINISTIC.json')
@@ -298,7 +356,7 @@ def run_replay(prop: str, path: str, strict_digest: bool) -> int:
     with open(path) as f:
         doc = json.load(f)
     known = load_known()
-    res = execute(doc['property'], doc['family'], None, replay=doc['choices'], keep_history=True)
+    res = execute(doc['property'], doc['family'], None, replay=doc['choices'], keep_history=True, env_seed=doc.get('seed'))
     if res['harness_error']:
         print('HARNESS-ERROR during replay:\n' + res['harness_error'])
         return 2
